@@ -570,9 +570,12 @@ class FillRequest(object):
                 else:
                     # at least one event present
                     # this would give bad performance for bufsize=1
-                    for val in el_run(chain([val],
-                                            islice(flow, bufsize-1))):
+                    block = chain([val], islice(flow, bufsize-1))
+                    for val in el_run(block):
                         yield val
+                    # el may have left a part of the block unconsumed
+                    for _ in block:
+                        pass
                     # usually Run elements have no reset, but...
                     # we call reset here, because we don't call request
                     # (which usually calls reset itself)
@@ -617,7 +620,11 @@ class FillRequest(object):
             # slice_ can be iterated multiple times
             slice_ = slice_iterated_with_count(bufsize, flow)
             while True:
-                results = list(el_run(slice_))
+                block = iter(slice_)
+                results = list(el_run(block))
+                # el may have left a part of the block unconsumed
+                for _ in block:
+                    pass
                 if slice_.count < bufsize:
                     return
                 for val in results:
